@@ -622,8 +622,10 @@ def r3_inline_helpers(body, src, known, self_name, depth=2, only=None):
         m = mask(body)
         changed = False
         out, last = [], 0
-        for mo in re.finditer(r'(\bself\s*\.\s*|\bSelf\s*::\s*)(\w+)\s*\(', m):
+        for mo in re.finditer(r'(\bself\s*\.\s*|\bSelf\s*::\s*|(?<![\w.:!]))([A-Za-z_]\w*)\s*\(', m):
             name = mo.group(2)
+            if name in ('if', 'while', 'match', 'for', 'loop', 'return', 'Some', 'Ok', 'Err', 'None', 'fn', 'let', 'in'):
+                continue
             if mo.start() < last or name in known or name == self_name or name not in defs or len(defs[name]) != 1 or (only is not None and name not in only):
                 continue
             fs, fe, bo, bc = defs[name][0]
@@ -637,6 +639,8 @@ def r3_inline_helpers(body, src, known, self_name, depth=2, only=None):
             is_method = bool(params) and re.match(r'^(&\s*(\'\w+\s+)?(mut\s+)?)?self\b', params[0]) is not None
             via_self = m[mo.start():mo.end()].lstrip().startswith('self')
             if via_self != is_method:
+                continue
+            if not mo.group(1) and len(name) < 4:
                 continue
             if is_method:
                 params = params[1:]
